@@ -84,7 +84,10 @@ def run(chk, repo, tier):
     chk.rule("C07.R4", "twist is an injective ring-embedding-times-units map carrying E'(F_p²) into E(F_p¹²)", 4 * 4)
     chk.rule("C07.R5", "moduli, orders, coefficients, tower moduli, generators are the standard alt_bn128 / BLS12-381 ones and "
                        "agree between the reference and the optimized module", 30)
-    chk.not_decided += ["associativity of the group law (one degree-heavy identity with degenerate cases; outside this engine)"]
+    chk.rule("C07.R6", "associativity of the affine chord-and-tangent table the code is compared with, as formal identities modulo the "
+                       "curve equations: codimension-one strata (quick) and the generic stratum / sum-equals-third-point (thorough)", 6)
+    chk.not_decided += ["associativity on the remaining lower-dimensional strata (two coincidences at once, points of order 2 or 3, "
+                        "the identity as an intermediate sum other than by inverse cancellation); in the quick tier also the generic stratum"]
     chk.assumptions += ["field operators are ring operations on canonical representatives (C08)", "characteristic > 3"]
     chk.depends_on += ["C08", "C13"]
     w = World(repo)
@@ -108,6 +111,9 @@ def run(chk, repo, tier):
         for key, ok, det in res:
             chk.ob("C07.R4", f.qualname, key, ok, det, f.where)
     constants(chk, repo, w, tier)
+    from ..assoc import obligations as assoc_obligations
+    for name, ok, det in assoc_obligations(tier):
+        chk.ob("C07.R6", "vstatic.curvelaw (affine table)", name, ok, det, "vstatic/curvelaw.py")
     chk.note_analysed(paths=n)
 
 
@@ -184,8 +190,9 @@ MANIFEST = {
     "text": "Decides for all points/scalars and all three curves of each family at once (b symbolic): the reference and optimized "
             "add/double/neg/eq/is_on_curve equal the textbook law on every path with every case handled (closure and "
             "commutativity follow from the table), multiply = n·P with termination, twist is an injective homomorphic embedding "
-            "onto curve points, and every published constant is the standard one and shared by both modules. Associativity is "
-            "not decided.",
+            "onto curve points, and every published constant is the standard one and shared by both modules. Associativity of the "
+            "table (hence of the code, path by path) is decided as formal identities on the generic stratum and the "
+            "codimension-one strata (thorough tier; quick: codimension-one only); deeper degenerate strata are not decided.",
     "note": "Layered on C08 (field operators are ring operations). Oracle: affine table, BN/BLS parameter polynomials, generator "
             "literals. Trusted: evaluator model, checker's polynomial / tower / modular arithmetic.",
 }
